@@ -16,6 +16,9 @@ From VL Require Import Prelude.Sx Prelude.PyDict Prelude.GDict Model.GetNBest Mo
      Proofs.BucklinShared_proofs Proofs.BucklinLeave_proofs.
 From VL Require Model.Hybrids Proofs.Hybrids_proofs.
 From VL Require Import Proofs.RaisesBallot_proofs Proofs.Scorers_proofs.
+From VL Require Import Proofs.HouseTie_proofs Proofs.VotesFull_proofs.
+From VL Require Model.Quota Model.QuotaDistributor.
+From VL Require Proofs.PositionalShared_proofs Proofs.RaisesAdded_proofs Proofs.LRMono_proofs.
 Import ListNotations.
 Open Scope Z_scope.
 
@@ -636,6 +639,349 @@ Example C17_example :
       [1%positive; 2%positive; 3%positive] = [4; 2; 0].
 Proof. vm_compute. split; reflexivity. Qed.
 
+
+(* ==== wave 5: the per-case parts of the two highest-averages clauses closed (Proofs/HouseTie_proofs.v, Proofs/VotesFull_proofs.v).
+   [tie_seat s c] = 1 when c is a member of the reported tie of s (it may still get one of the tied seats), else 0;
+   a party's possible total is [tot_s s c + tie_seat s c]. *)
+
+(* House monotonicity, the exact relation of the run for n seats and the run for n + 1 seats ([house_rel]): either the smaller run
+   reports no tie and nobody's sure seats drop; or it reports Tie(T, r) and the larger run has the SAME sure seats and reports
+   Tie(T, r + 1), or - when r + 1 = |T| - gives every member of T one more sure seat and reports no tie.
+   Every divisor function, votes, caps, non-negative previous gains. *)
+Theorem C17_house_exact : forall (d : Z -> Q) (votes : list (C * Q)) (caps prev : list (C * Z)) (n : Z),
+  Forall (fun cv => 0 <= snd cv) prev ->
+  let sa := final_state d votes n prev caps in let sb := final_state d votes (n + 1) prev caps in
+  (st_tie sa = None /\ forall c, tot_s sa c <= tot_s sb c) \/
+  (exists T r, st_tie sa = Some (T, r) /\
+     ((st_tie sb = Some (T, r + 1) /\ st_totals sb = st_totals sa) \/
+      (st_tie sb = None /\ Z.of_nat (length T) = r + 1 /\ forall c, tot_s sb c = tot_s sa c + count c T))).
+Proof. intros d votes caps prev n Hp. exact (house_exact d votes caps n prev Hp). Qed.
+
+(* ... so neither the sure seats (C17_house) nor the possible total of any party ever drop when a seat is added *)
+Theorem C17_house_tie : forall (d : Z -> Q) (votes : list (C * Q)) (caps prev : list (C * Z)) (n : Z),
+  Forall (fun cv => 0 <= snd cv) prev -> forall c,
+  tot_s (final_state d votes n prev caps) c + tie_seat (final_state d votes n prev caps) c <=
+  tot_s (final_state d votes (n + 1) prev caps) c + tie_seat (final_state d votes (n + 1) prev caps) c.
+Proof. intros d votes caps prev n Hp. exact (house_tie_monotone d votes caps n prev Hp). Qed.
+
+(* Vote monotonicity in full: every positive NON-DECREASING divisor (no strictness), votes >= 0 (zero-vote parties, p itself may
+   start from zero), caps (p capped, others capped, caps exhausted), non-negative previous gains, and whatever way either run ends:
+   party p gains votes, everybody else keeps theirs; then (i) the seats p holds for certain do not drop and (ii) its possible total
+   (sure seats + the seat it may still get out of a reported tie) does not drop.  C17_votes is the special case "new run tie-free". *)
+Theorem C17_votes_full : forall (d : Z -> Q) (votes votes' : list (C * Q)) (caps prev : list (C * Z)) (n : Z)
+    (p : C) (vp vp' : Q),
+  divisor_ok d ->
+  (forall c v, In (c, v) votes -> (0 <= v)%Q) -> (forall c v, In (c, v) votes' -> (0 <= v)%Q) ->
+  NoDup (map fst votes) -> NoDup (map fst votes') -> (forall c, 0 <= dget_or prev c 0) ->
+  dget votes p = Some vp -> dget votes' p = Some vp' -> (vp <= vp')%Q ->
+  (forall c, c <> p -> dget votes' c = dget votes c) ->
+  let sa := final_state d votes n prev caps in let sb := final_state d votes' n prev caps in
+  tot_s sa p <= tot_s sb p /\ tot_s sa p + tie_seat sa p <= tot_s sb p + tie_seat sb p.
+Proof.
+  intros d votes votes' caps prev n p vp vp' [Hpos Hmono] Hv Hv' Hnd Hnd' Hprev Hp Hp' Hle Hoth.
+  exact (votes_monotone_full d votes votes' caps prev n Hpos Hmono Hv Hv' Hnd Hnd' Hprev p vp vp' Hp Hp' Hle Hoth).
+Qed.
+
+(* the hypothesis on the divisor holds for the five built-in sequences and for modified_first_coef(f, c) with 0 < c <= f(1) *)
+Theorem C17_builtin_divisors_ok :
+  (forall i, divisor_ok (divisor_by_id i)) /\
+  (forall f c, divisor_ok f -> (0 < c)%Q -> (c <= f 1%Z)%Q -> divisor_ok (modified_first_coef f c)).
+Proof. split; [exact builtin_ok|exact modified_ok]. Qed.
+
+(* non-vacuity: d'Hondt, 2 seats, C has no votes and is capped.  A: 8 -> 10 votes (B: 20): before, B takes both seats; after, B holds one
+   and A and B tie for the other - A's sure seats stay 0, its possible total rises from 0 to 1 (and B, who did not change, loses a sure seat);
+   three zero-vote parties tie for both seats; when A gets 3 votes it takes both *)
+Example C17_votes_full_example :
+  let show s := (map (tot_s s) [1; 2; 3]%positive, st_tie s, map (tie_seat s) [1; 2; 3]%positive) in
+  show (final_state d_hondt [(1%positive, 8#1); (2%positive, 20#1); (3%positive, 0#1)]%Q 2 [] [(3%positive, 1)]) = ([0; 2; 0], None, [0; 0; 0]) /\
+  show (final_state d_hondt [(1%positive, 10#1); (2%positive, 20#1); (3%positive, 0#1)]%Q 2 [] [(3%positive, 1)])
+    = ([0; 1; 0], Some ([2%positive; 1%positive], 1), [1; 1; 0]) /\
+  show (final_state d_hondt [(1%positive, 0#1); (2%positive, 0#1); (3%positive, 0#1)]%Q 2 [] [])
+    = ([0; 0; 0], Some ([1%positive; 2%positive; 3%positive], 2), [1; 1; 1]) /\
+  show (final_state d_hondt [(1%positive, 3#1); (2%positive, 0#1); (3%positive, 0#1)]%Q 2 [] []) = ([2; 0; 0], None, [0; 0; 0]).
+Proof. vm_compute. repeat split; reflexivity. Qed.
+
+(* non-vacuity of both branches of C17_house_exact: three equal parties, 4 -> 5 seats: Tie(T, 1) becomes Tie(T, 2); 60/30/10, 5 -> 6 seats:
+   Tie({A, B}, 1) is resolved, both get the seat *)
+Example C17_house_exact_example :
+  let show s := (map (tot_s s) [1; 2; 3]%positive, st_tie s) in
+  show (final_state d_hondt [(1%positive, 6#1); (2%positive, 6#1); (3%positive, 6#1)]%Q 4 [] []) = ([1; 1; 1], Some ([1; 2; 3]%positive, 1)) /\
+  show (final_state d_hondt [(1%positive, 6#1); (2%positive, 6#1); (3%positive, 6#1)]%Q 5 [] []) = ([1; 1; 1], Some ([1; 2; 3]%positive, 2)) /\
+  show (final_state d_hondt [(1%positive, 60#1); (2%positive, 30#1); (3%positive, 10#1)]%Q 5 [] []) = ([3; 1; 0], Some ([1; 2]%positive, 1)) /\
+  show (final_state d_hondt [(1%positive, 60#1); (2%positive, 30#1); (3%positive, 10#1)]%Q 6 [] []) = ([4; 2; 0], None).
+Proof. vm_compute. repeat split; reflexivity. Qed.
+
+(* ---- largest remainder: NOT among the rules the property claims monotone ("under every highest-averages rule ..."); recorded for contrast,
+   kernel-evaluated on the model of LargestRemainder.evaluate (Model/QuotaDistributor.v, tied to the code by the streams of C02 and by the
+   stream lr-paradox here) and replayed on the implementation (corpus/C17/lr-*.json).
+   Alabama paradox: Hare quota, votes 3 / 1 / 7: in a house of 5 party B holds a seat, in a house of 6 it holds none. *)
+Theorem C17_lr_house_refuted :
+  exists (votes : list (C * Q)) (n : Z) (p : C) s1 s2,
+    QuotaDistributor.lr_evaluate Quota.hare true QuotaDistributor.PError votes n [] [] = QuotaDistributor.LR_ok s1 /\
+    QuotaDistributor.lr_evaluate Quota.hare true QuotaDistributor.PError votes (n + 1) [] [] = QuotaDistributor.LR_ok s2 /\
+    QuotaDistributor.kdget s2 p < QuotaDistributor.kdget s1 p.
+Proof.
+  exists [(1%positive, 3#1); (2%positive, 1#1); (3%positive, 7#1)]%Q, 5, 2%positive,
+    [(QuotaDistributor.K 1%positive, 1); (QuotaDistributor.K 3%positive, 3); (QuotaDistributor.K 2%positive, 1)], [(QuotaDistributor.K 1%positive, 2); (QuotaDistributor.K 3%positive, 4)].
+  vm_compute. repeat split; reflexivity.
+Qed.
+
+(* a party that gains a vote loses a seat under a ROUNDED quota (Droop = floor(V / (n + 1)) + 1 jumps from 1 to 2): votes 1 / 4, 5 seats:
+   B holds 4 seats; with 5 votes it holds 3 (the remainder stage gives every party at most one seat: only 4 of the 5 seats are filled) *)
+Theorem C17_lr_votes_droop_refuted :
+  exists (votes votes' : list (C * Q)) (n : Z) (p : C) (vp vp' : Q) s1 s2,
+    dget votes p = Some vp /\ dget votes' p = Some vp' /\ (vp <= vp')%Q /\ (forall c, c <> p -> dget votes' c = dget votes c) /\
+    QuotaDistributor.lr_evaluate Quota.droop true QuotaDistributor.PError votes n [] [] = QuotaDistributor.LR_ok s1 /\
+    QuotaDistributor.lr_evaluate Quota.droop true QuotaDistributor.PError votes' n [] [] = QuotaDistributor.LR_ok s2 /\
+    QuotaDistributor.kdget s2 p < QuotaDistributor.kdget s1 p.
+Proof.
+  exists [(1%positive, 1#1); (2%positive, 4#1)]%Q, [(1%positive, 1#1); (2%positive, 5#1)]%Q, 5, 2%positive, (4#1)%Q, (5#1)%Q,
+    [(QuotaDistributor.K 1%positive, 1); (QuotaDistributor.K 2%positive, 4)], [(QuotaDistributor.K 2%positive, 3); (QuotaDistributor.K 1%positive, 1)].
+  split; [reflexivity|]. split; [reflexivity|]. split; [vm_compute; discriminate|]. split.
+  - intros c Hc. cbn [dget]. destruct (ceqb c 1%positive); [reflexivity|]. destruct (ceqb c 2%positive) eqn:E; [|reflexivity].
+    apply Pos.eqb_eq in E. congruence.
+  - vm_compute. repeat split; reflexivity.
+Qed.
+
+
+(* ==== positional rules, the changed ballot WITH shared ranks (Proofs/PositionalShared_proofs.v).  In the model of
+   RankedToPositionalVotes.convert ([img_positional], as in the code) every member of a shared rank gets the score of the rank's index.
+   General additive form first: the sole winner stays when everybody else gains at most what the winner gains (C17_additive is the case
+   "winner gains >= 0 >= the others' gain") - needed because under modified Borda a ballot that gets one rank longer lifts every score by one. *)
+Theorem C17_additive_diff : forall (B : Type) (image : B -> list (sx * Q)) pre post (b b' : B) (w : Q) (kw : sx),
+  (0 <= w)%Q ->
+  (forall k, In k (map fst (image b')) -> k = kw \/ In k (map fst (image b))) ->
+  In kw (map fst (image b')) ->
+  (forall k, k <> kw -> (coef sx_eqb (image b') k - coef sx_eqb (image b) k <= coef sx_eqb (image b') kw - coef sx_eqb (image b) kw)%Q) ->
+  get_n_best Qle_bool (dconv image (pre ++ (b, w) :: post)) 1 = [Cand kw] ->
+  get_n_best Qle_bool (dconv image (pre ++ (b', w) :: post)) 1 = [Cand kw].
+Proof. intros B image. exact (PositionalShared_proofs.additive_sole_winner_diff sx_eqb sx_eqb_spec image). Qed.
+
+(* a ballot is ADDED: it names no new key and gives nobody more than the winner *)
+Theorem C17_additive_added : forall (B : Type) (image : B -> list (sx * Q)) pre post (b' : B) (w : Q) (kw : sx),
+  (0 <= w)%Q ->
+  (forall k, In k (map fst (image b')) -> In k (map fst (dconv image (pre ++ post)))) ->
+  (forall k, (coef sx_eqb (image b') k <= coef sx_eqb (image b') kw)%Q) ->
+  get_n_best Qle_bool (dconv image (pre ++ post)) 1 = [Cand kw] ->
+  get_n_best Qle_bool (dconv image (pre ++ (b', w) :: post)) 1 = [Cand kw].
+Proof. intros B image. exact (PositionalShared_proofs.additive_added_ballot sx_eqb sx_eqb_spec image). Qed.
+
+Lemma scorer_ok_is_b s : scorer_ok s = PositionalShared_proofs.scorer_ok_b s.
+Proof. reflexivity. Qed.
+
+(* the winner, on a rank of its own, moves up past the items p2 - plain or shared ranks - of a ballot that may contain shared ranks anywhere
+   (further occurrences of w elsewhere on the ballot do not matter); every scorer with [scorer_ok]; no condition on the ballot length (when
+   [rank_scores] refuses - Borda, more ranks than candidates - both images are empty) *)
+Theorem C17_positional_shared : forall (s : Convert.scorer) (n_cands : nat) pre_b post_b (p1 p2 p3 : ranked) (w : C) (wgt : Q),
+  (0 <= wgt)%Q -> ~ In w (flatten p2) -> scorer_ok s = true ->
+  get_n_best Qle_bool (dconv (pos_img s n_cands) (pre_b ++ (p1 ++ p2 ++ IP w :: p3, wgt) :: post_b)) 1 = [Cand (kc w)] ->
+  get_n_best Qle_bool (dconv (pos_img s n_cands) (pre_b ++ (p1 ++ IP w :: p2 ++ p3, wgt) :: post_b)) 1 = [Cand (kc w)].
+Proof.
+  intros s n_cands pre_b post_b p1 p2 p3 w wgt Hw Hnin Hok.
+  exact (PositionalShared_proofs.positional_move_up_items s n_cands pre_b post_b p1 p2 p3 w wgt Hw Hnin (C17_scorer_ok s n_cands Hok)).
+Qed.
+
+(* the winner LEAVES a shared rank {la, w, lb} for a place of its own above it (directly, or further up past the items p2): the ballot gets one
+   rank longer, so the score list is the one for k + 1 ranks.  For all six scorers under [scorer_ok] the two lists are related by [grow_ok]
+   (C17_scorer_grow_ok: a score shifted one place down never gains, one that stays never loses, and staying gains no more than any upward move).
+   No candidate twice on the ballot (C17_positional_twice_refuted).  When one member is left, it may be written as a plain rank. *)
+Theorem C17_scorer_grow_ok : forall s n k sc sc', scorer_ok s = true ->
+  rank_scores s n k = Some sc -> rank_scores s n (S k) = Some sc' -> PositionalShared_proofs.grow_ok sc sc'.
+Proof. intros s n k sc sc' Hok. rewrite scorer_ok_is_b in Hok. exact (PositionalShared_proofs.scorer_grow_ok s n k sc sc' Hok). Qed.
+
+Theorem C17_positional_leave_shared : forall (s : Convert.scorer) (n_cands : nat) pre_b post_b (p1 p2 p3 : ranked) (la lb : list C) (w : C) (wgt : Q) (sc' : list Q),
+  (0 <= wgt)%Q -> NoDup (flatten (p1 ++ p2 ++ IS (la ++ w :: lb) :: p3)) -> scorer_ok s = true ->
+  rank_scores s n_cands (S (length (p1 ++ p2 ++ IS (la ++ w :: lb) :: p3))) = Some sc' ->
+  get_n_best Qle_bool (dconv (pos_img s n_cands) (pre_b ++ (p1 ++ p2 ++ IS (la ++ w :: lb) :: p3, wgt) :: post_b)) 1 = [Cand (kc w)] ->
+  get_n_best Qle_bool (dconv (pos_img s n_cands) (pre_b ++ (p1 ++ IP w :: p2 ++ IS (la ++ lb) :: p3, wgt) :: post_b)) 1 = [Cand (kc w)].
+Proof.
+  intros s n_cands pre_b post_b p1 p2 p3 la lb w wgt sc' Hw Hnd Hok. rewrite scorer_ok_is_b in Hok.
+  exact (PositionalShared_proofs.positional_leave_shared s n_cands pre_b post_b p1 p2 p3 la lb w wgt sc' Hw Hnd Hok).
+Qed.
+
+Theorem C17_positional_leave_pair : forall (s : Convert.scorer) (n_cands : nat) pre_b post_b (p1 p2 p3 : ranked) (la lb : list C) (w c : C) (wgt : Q) (sc' : list Q),
+  (0 <= wgt)%Q -> NoDup (flatten (p1 ++ p2 ++ IS (la ++ w :: lb) :: p3)) -> scorer_ok s = true -> la ++ lb = [c] ->
+  rank_scores s n_cands (S (length (p1 ++ p2 ++ IS (la ++ w :: lb) :: p3))) = Some sc' ->
+  get_n_best Qle_bool (dconv (pos_img s n_cands) (pre_b ++ (p1 ++ p2 ++ IS (la ++ w :: lb) :: p3, wgt) :: post_b)) 1 = [Cand (kc w)] ->
+  get_n_best Qle_bool (dconv (pos_img s n_cands) (pre_b ++ (p1 ++ IP w :: p2 ++ IP c :: p3, wgt) :: post_b)) 1 = [Cand (kc w)].
+Proof.
+  intros s n_cands pre_b post_b p1 p2 p3 la lb w c wgt sc' Hw Hnd Hok. rewrite scorer_ok_is_b in Hok.
+  exact (PositionalShared_proofs.positional_leave_shared_single s n_cands pre_b post_b p1 p2 p3 la lb w c wgt sc' Hw Hnd Hok).
+Qed.
+
+(* an UNRANKED winner gets ranked (anywhere: p1 above it, p2 below it): an unranked candidate gets 0 from the ballot, so the new score of w must
+   not be negative - true of every scorer with [scorer_ok] except Borda with a negative base ([scorer_nonneg_b]); refuted otherwise
+   (C17_positional_negative_refuted) *)
+Theorem C17_positional_rank_unranked : forall (s : Convert.scorer) (n_cands : nat) pre_b post_b (p1 p2 : ranked) (w : C) (wgt : Q) (sc' : list Q),
+  (0 <= wgt)%Q -> ~ In w (flatten (p1 ++ p2)) -> NoDup (flatten (p1 ++ p2)) -> scorer_ok s = true ->
+  PositionalShared_proofs.scorer_nonneg_b s = true ->
+  rank_scores s n_cands (S (length (p1 ++ p2))) = Some sc' ->
+  get_n_best Qle_bool (dconv (pos_img s n_cands) (pre_b ++ (p1 ++ p2, wgt) :: post_b)) 1 = [Cand (kc w)] ->
+  get_n_best Qle_bool (dconv (pos_img s n_cands) (pre_b ++ (p1 ++ IP w :: p2, wgt) :: post_b)) 1 = [Cand (kc w)].
+Proof.
+  intros s n_cands pre_b post_b p1 p2 w wgt sc' Hw Hnin Hnd Hok. rewrite scorer_ok_is_b in Hok.
+  exact (PositionalShared_proofs.positional_rank_unranked_nonneg s n_cands pre_b post_b p1 p2 w wgt sc' Hw Hnin Hnd Hok).
+Qed.
+
+(* a NEW ballot with the winner alone on top (shared ranks and truncation below it allowed), naming no new candidate and nobody twice *)
+Theorem C17_positional_added : forall (s : Convert.scorer) (n_cands : nat) pre_b post_b (rest : ranked) (w : C) (wgt : Q),
+  (0 <= wgt)%Q -> NoDup (w :: flatten rest) ->
+  (forall c, In c (flatten rest) -> In (kc c) (map fst (dconv (pos_img s n_cands) (pre_b ++ post_b)))) ->
+  scorer_ok s = true -> PositionalShared_proofs.scorer_nonneg_b s = true ->
+  get_n_best Qle_bool (dconv (pos_img s n_cands) (pre_b ++ post_b)) 1 = [Cand (kc w)] ->
+  get_n_best Qle_bool (dconv (pos_img s n_cands) (pre_b ++ (IP w :: rest, wgt) :: post_b)) 1 = [Cand (kc w)].
+Proof.
+  intros s n_cands pre_b post_b rest w wgt Hw Hnd Hc Hok. rewrite scorer_ok_is_b in Hok.
+  exact (PositionalShared_proofs.positional_added_ballot_nonneg s n_cands pre_b post_b rest w wgt Hw Hnd Hc Hok).
+Qed.
+
+(* the two extra conditions are needed (all witnesses replayed on the implementation).  Borda(base = -5) has negative scores: {(A,B,C): 1, (B): 1}
+   elects A; ranking A FIRST on the second ballot, (B) -> (A,B), makes C win; {(A,B): 1} elects A, the added bullet vote (A) makes B win.
+   A candidate twice on the ballot: see the three profiles in [positional_twice_refuted]. *)
+Theorem C17_positional_negative_refuted :
+  (exists (s : Convert.scorer) (n_cands : nat) pre_b post_b (p1 p2 : ranked) (w : C) (wgt : Q) (sc' : list Q),
+    (0 <= wgt)%Q /\ ~ In w (flatten (p1 ++ p2)) /\ NoDup (flatten (p1 ++ p2)) /\ scorer_ok s = true /\
+    rank_scores s n_cands (S (length (p1 ++ p2))) = Some sc' /\ (nth (length p1) sc' 0 < 0)%Q /\
+    get_n_best Qle_bool (dconv (pos_img s n_cands) (pre_b ++ (p1 ++ p2, wgt) :: post_b)) 1 = [Cand (kc w)] /\
+    get_n_best Qle_bool (dconv (pos_img s n_cands) (pre_b ++ (p1 ++ IP w :: p2, wgt) :: post_b)) 1 = [Cand (kc 3%positive)] /\
+    w <> 3%positive) /\
+  (exists (s : Convert.scorer) (n_cands : nat) pre_b post_b (rest : ranked) (w : C) (wgt : Q),
+    (0 <= wgt)%Q /\ NoDup (w :: flatten rest) /\
+    (forall c, In c (flatten rest) -> In (kc c) (map fst (dconv (pos_img s n_cands) (pre_b ++ post_b)))) /\
+    scorer_ok s = true /\
+    get_n_best Qle_bool (dconv (pos_img s n_cands) (pre_b ++ post_b)) 1 = [Cand (kc w)] /\
+    get_n_best Qle_bool (dconv (pos_img s n_cands) (pre_b ++ (IP w :: rest, wgt) :: post_b)) 1 = [Cand (kc 2%positive)] /\
+    w <> 2%positive).
+Proof.
+  split; [exact PositionalShared_proofs.positional_rank_unranked_negative_refuted|exact PositionalShared_proofs.positional_added_ballot_negative_refuted].
+Qed.
+
+Definition C17_positional_twice_refuted := PositionalShared_proofs.positional_twice_refuted.
+Definition C17_positional_shared_examples := PositionalShared_proofs.positional_shared_examples.
+
+(* ==== Copeland / minimax: an UNRANKED winner gets ranked, and an ADDED ballot (Proofs/RaisesAdded_proofs.v), through the model of
+   RankedToCondorcetVotes(unranked_at_bottom=True).convert.
+   w is not on the ballot p1 ++ p2 (it counts as below everybody ranked there and level with the other unranked candidates) and gets ranked
+   between p1 and p2 - bottom, middle or top: the dictionary changes EXACTLY by [rank_gain]: count(w, c) += x for c in p2 and for the
+   candidates the new ballot still leaves unranked, count(c, w) -= x for c in p2, nothing else. *)
+Theorem C17_ballot_rank_exact : forall (pre post : Hybrids.rvotes) (p1 p2 : ranked) (x : Z) (w a c : C),
+  ~ In w (flatten (p1 ++ p2)) -> In w (Hybrids_proofs.cands_of (pre ++ (p1 ++ p2, x) :: post)) ->
+  pget0 (Hybrids.pairwise (pre ++ (p1 ++ IP w :: p2, x) :: post)) (a, c) =
+  pget0 (Hybrids.pairwise (pre ++ (p1 ++ p2, x) :: post)) (a, c)
+  + x * RaisesAdded_proofs.rank_gain (Hybrids_proofs.cands_of (pre ++ (p1 ++ p2, x) :: post)) p1 p2 w a c.
+Proof. intros pre post p1 p2 x w a c H1 H2. exact (RaisesAdded_proofs.pairwise_rank_exact pre post p1 p2 x w H1 H2 a c). Qed.
+
+Theorem C17_ballot_rank_raises : forall (pre post : Hybrids.rvotes) (p1 p2 : ranked) (x : Z) (w : C),
+  ~ In w (flatten (p1 ++ p2)) -> In w (Hybrids_proofs.cands_of (pre ++ (p1 ++ p2, x) :: post)) ->
+  Hybrids_proofs.wf_votes (pre ++ (p1 ++ p2, x) :: post) = true -> Hybrids.pairwise (pre ++ (p1 ++ p2, x) :: post) <> [] ->
+  raises_s (Hybrids.pairwise (pre ++ (p1 ++ p2, x) :: post)) (Hybrids.pairwise (pre ++ (p1 ++ IP w :: p2, x) :: post)) w.
+Proof. intros pre post p1 p2 x w. exact (RaisesAdded_proofs.pairwise_rank_raises pre post p1 p2 x w). Qed.
+
+Theorem C17_copeland_ballots_rank : forall (pre post : Hybrids.rvotes) (p1 p2 : ranked) (x : Z) (w : C) (so : bool),
+  Hybrids_proofs.wf_votes (pre ++ (p1 ++ p2, x) :: post) = true -> ~ In w (flatten (p1 ++ p2)) ->
+  copeland false (Hybrids.pairwise (pre ++ (p1 ++ p2, x) :: post)) 1 = [Cand w] ->
+  copeland so (Hybrids.pairwise (pre ++ (p1 ++ IP w :: p2, x) :: post)) 1 = [Cand w].
+Proof. exact RaisesAdded_proofs.copeland_ballot_rank. Qed.
+
+Theorem C17_minimax_ballots_rank : forall (pre post : Hybrids.rvotes) (p1 p2 : ranked) (x : Z) (w : C) (s : Condorcet.scorer),
+  Hybrids_proofs.wf_votes (pre ++ (p1 ++ p2, x) :: post) = true -> ~ In w (flatten (p1 ++ p2)) ->
+  minimax s (Hybrids.pairwise (pre ++ (p1 ++ p2, x) :: post)) 1 = [Cand w] ->
+  minimax s (Hybrids.pairwise (pre ++ (p1 ++ IP w :: p2, x) :: post)) 1 = [Cand w].
+Proof. exact RaisesAdded_proofs.minimax_ballot_rank. Qed.
+
+(* an ADDED ballot r (x units, no new candidate): every entry grows by x times the coefficient of r; the bullet vote for w: count(w, c) += x for
+   every other candidate of the profile, nothing else - so Copeland and minimax (all three scorers) keep the sole winner *)
+Theorem C17_ballot_added_exact : forall (pre post : Hybrids.rvotes) (r : ranked) (x : Z) (a c : C),
+  (forall k, In k (flatten r) -> In k (Hybrids_proofs.cands_of (pre ++ post))) ->
+  pget0 (Hybrids.pairwise (pre ++ (r, x) :: post)) (a, c) =
+  pget0 (Hybrids.pairwise (pre ++ post)) (a, c) + x * Hybrids_proofs.coef (Hybrids_proofs.cands_of (pre ++ post)) r a c.
+Proof. intros pre post r x a c H. exact (RaisesAdded_proofs.pairwise_added_exact pre post r x H a c). Qed.
+
+Theorem C17_ballot_bullet_exact : forall (pre post : Hybrids.rvotes) (x : Z) (w a c : C),
+  In w (Hybrids_proofs.cands_of (pre ++ post)) ->
+  pget0 (Hybrids.pairwise (pre ++ ([IP w], x) :: post)) (a, c) =
+  pget0 (Hybrids.pairwise (pre ++ post)) (a, c)
+  + x * (Hybrids_proofs.cnt a [w] * Hybrids_proofs.cnt c (set_diff (Hybrids_proofs.cands_of (pre ++ post)) [w])).
+Proof. intros pre post x w a c H. exact (RaisesAdded_proofs.pairwise_bullet_exact pre post x w H a c). Qed.
+
+Theorem C17_copeland_ballots_added_bullet : forall (pre post : Hybrids.rvotes) (x : Z) (w : C) (so : bool),
+  Hybrids_proofs.wf_votes (pre ++ post) = true -> 0 <= x ->
+  copeland false (Hybrids.pairwise (pre ++ post)) 1 = [Cand w] ->
+  copeland so (Hybrids.pairwise (pre ++ ([IP w], x) :: post)) 1 = [Cand w].
+Proof. exact RaisesAdded_proofs.copeland_ballot_added_bullet. Qed.
+
+Theorem C17_minimax_ballots_added_bullet : forall (pre post : Hybrids.rvotes) (x : Z) (w : C) (s : Condorcet.scorer),
+  Hybrids_proofs.wf_votes (pre ++ post) = true -> 0 <= x ->
+  minimax s (Hybrids.pairwise (pre ++ post)) 1 = [Cand w] ->
+  minimax s (Hybrids.pairwise (pre ++ ([IP w], x) :: post)) 1 = [Cand w].
+Proof. exact RaisesAdded_proofs.minimax_ballot_added_bullet. Qed.
+
+(* a LONGER added ballot (w alone on top, then any items) changes contests among the others, so [raises_s] fails; what holds is [lifts_by .. w x]:
+   w gains at least x against everybody, nobody gains against w, any other count grows by at most x.  Minimax with margins and with pairwise
+   opposition keeps the sole winner under it (every defeat of w shrinks by at least as much as anybody else's can) ... *)
+Theorem C17_ballot_added_lifts : forall (pre post : Hybrids.rvotes) (rest : ranked) (x : Z) (w : C),
+  In w (Hybrids_proofs.cands_of (pre ++ post)) -> (forall c, In c (flatten rest) -> In c (Hybrids_proofs.cands_of (pre ++ post))) ->
+  Hybrids_proofs.wf_votes (pre ++ (IP w :: rest, x) :: post) = true -> Hybrids.pairwise (pre ++ post) <> [] ->
+  RaisesAdded_proofs.lifts_by (Hybrids.pairwise (pre ++ post)) (Hybrids.pairwise (pre ++ (IP w :: rest, x) :: post)) w x.
+Proof. exact RaisesAdded_proofs.pairwise_added_lifts. Qed.
+
+Theorem C17_minimax_ballots_added : forall (pre post : Hybrids.rvotes) (rest : ranked) (x : Z) (w : C) (s : Condorcet.scorer),
+  s <> WinningVotes ->
+  Hybrids_proofs.wf_votes (pre ++ (IP w :: rest, x) :: post) = true ->
+  (forall c, In c (flatten rest) -> In c (Hybrids_proofs.cands_of (pre ++ post))) ->
+  minimax s (Hybrids.pairwise (pre ++ post)) 1 = [Cand w] ->
+  minimax s (Hybrids.pairwise (pre ++ (IP w :: rest, x) :: post)) 1 = [Cand w].
+Proof. exact RaisesAdded_proofs.minimax_ballot_added. Qed.
+
+(* ... Copeland and minimax with winning votes do NOT (found on the implementation, minimised, kernel-evaluated on the model).
+   Copeland: {(A,D,C): 2, (C,B): 2, (B,D): 2} elects B; one more ballot (B,C) turns the tie C - A into a win of C: first-order tie {C, B}, and
+   the default second-order tie-break elects C alone.  Minimax, winning votes: {(B): 2, (D): 4, (A,B): 3} elects B; one more ballot (B,A) makes
+   D - A and A - B ties, A and B are both undefeated: tie {A, B}. *)
+Theorem C17_copeland_added_long_refuted : exists pre post rest x w,
+  Hybrids_proofs.wf_votes (pre ++ (IP w :: rest, x) :: post) = true /\ 0 < x /\
+  (forall c, In c (flatten rest) -> In c (Hybrids_proofs.cands_of (pre ++ post))) /\
+  copeland false (Hybrids.pairwise (pre ++ post)) 1 = [Cand w] /\ copeland true (Hybrids.pairwise (pre ++ post)) 1 = [Cand w] /\
+  copeland false (Hybrids.pairwise (pre ++ (IP w :: rest, x) :: post)) 1 = [TieR [3; 2]%positive] /\
+  copeland true (Hybrids.pairwise (pre ++ (IP w :: rest, x) :: post)) 1 = [Cand 3%positive] /\ w <> 3%positive.
+Proof. exact RaisesAdded_proofs.copeland_added_long_refuted. Qed.
+
+Theorem C17_minimax_winvotes_added_long_refuted : exists pre post rest x w,
+  Hybrids_proofs.wf_votes (pre ++ (IP w :: rest, x) :: post) = true /\ 0 < x /\
+  (forall c, In c (flatten rest) -> In c (Hybrids_proofs.cands_of (pre ++ post))) /\
+  minimax WinningVotes (Hybrids.pairwise (pre ++ post)) 1 = [Cand w] /\
+  minimax WinningVotes (Hybrids.pairwise (pre ++ (IP w :: rest, x) :: post)) 1 = [TieR [1; 2]%positive].
+Proof. exact RaisesAdded_proofs.minimax_winvotes_added_long_refuted. Qed.
+
+Definition C17_ballot_rank_example := RaisesAdded_proofs.rank_example.
+Definition C17_ballot_added_example := RaisesAdded_proofs.added_example.
+
+
+(* ... and what IS true of largest remainder (Proofs/LRMono_proofs.v; again not claimed by the property): with the EXACT Hare quota V / n, no previous
+   gains and no caps, a party that gains votes while the others keep theirs keeps the seats it holds for certain ([kdget], the plain key) and its
+   possible total ([kposs] = plain key + 1 when it is a member of a Tie key), for every over-award policy and any insertion order of the new dictionary;
+   the evaluation is always defined on this domain (C17_lr_hare_defined).  The whole-quota stage gives floor(v / q), the remainder stage is get_n_best on
+   the fractional parts: a party at or above p afterwards either had its floor dropped (each such drop opens a remainder seat) or was at or above p before. *)
+Theorem C17_lr_hare_votes : forall (pol : QuotaDistributor.policy) (votes votes' : list (C * Q)) (n : Z) (p : C) (vp vp' : Q) s1 s2,
+  1 <= n -> NoDup (map fst votes) -> NoDup (map fst votes') ->
+  (forall c v, In (c, v) votes -> (0 <= v)%Q) -> (forall c v, In (c, v) votes' -> (0 <= v)%Q) -> (0 < QuotaDistributor.qsumv votes)%Q ->
+  dget votes p = Some vp -> dget votes' p = Some vp' -> (vp <= vp')%Q ->
+  (forall c, c <> p -> dget votes' c = dget votes c) ->
+  QuotaDistributor.lr_evaluate Quota.hare true pol votes n [] [] = QuotaDistributor.LR_ok s1 ->
+  QuotaDistributor.lr_evaluate Quota.hare true pol votes' n [] [] = QuotaDistributor.LR_ok s2 ->
+  QuotaDistributor.kdget s1 p <= QuotaDistributor.kdget s2 p /\ LRMono_proofs.kposs s1 p <= LRMono_proofs.kposs s2 p.
+Proof.
+  intros pol votes votes' n p vp vp' s1 s2 Hn Hnd Hnd' Hv Hv' Hq Hp Hp' Hle Hoth H1 H2. split.
+  - exact (LRMono_proofs.lr_hare_votes_monotone pol votes votes' n p vp vp' s1 s2 Hn Hnd Hnd' Hv Hv' Hq Hp Hp' Hle Hoth H1 H2).
+  - exact (LRMono_proofs.lr_hare_votes_monotone_possible pol votes votes' n p vp vp' s1 s2 Hn Hnd Hnd' Hv Hv' Hq Hp Hp' Hle Hoth H1 H2).
+Qed.
+
+Theorem C17_lr_hare_defined : forall (pol : QuotaDistributor.policy) (votes : list (C * Q)) (n : Z),
+  1 <= n -> NoDup (map fst votes) -> (forall c v, In (c, v) votes -> (0 <= v)%Q) -> (0 < QuotaDistributor.qsumv votes)%Q ->
+  exists s, QuotaDistributor.lr_evaluate Quota.hare true pol votes n [] [] = QuotaDistributor.LR_ok s.
+Proof. exact LRMono_proofs.lr_hare_defined. Qed.
+
+Definition C17_lr_hare_example := LRMono_proofs.lr_hare_mono_example_tie.
+
 Print Assumptions C17_house.
 Print Assumptions C17_house_any.
 Print Assumptions C17_votes.
@@ -686,3 +1032,33 @@ Print Assumptions C17_ballot_leave_exact.
 Print Assumptions C17_ballot_leave_raises.
 Print Assumptions C17_copeland_ballots_leave.
 Print Assumptions C17_minimax_ballots_leave.
+Print Assumptions C17_house_exact.
+Print Assumptions C17_house_tie.
+Print Assumptions C17_votes_full.
+Print Assumptions C17_builtin_divisors_ok.
+Print Assumptions C17_lr_house_refuted.
+Print Assumptions C17_lr_votes_droop_refuted.
+Print Assumptions C17_additive_diff.
+Print Assumptions C17_additive_added.
+Print Assumptions C17_positional_shared.
+Print Assumptions C17_scorer_grow_ok.
+Print Assumptions C17_positional_leave_shared.
+Print Assumptions C17_positional_leave_pair.
+Print Assumptions C17_positional_rank_unranked.
+Print Assumptions C17_positional_added.
+Print Assumptions C17_positional_negative_refuted.
+Print Assumptions C17_positional_twice_refuted.
+Print Assumptions C17_ballot_rank_exact.
+Print Assumptions C17_ballot_rank_raises.
+Print Assumptions C17_copeland_ballots_rank.
+Print Assumptions C17_minimax_ballots_rank.
+Print Assumptions C17_ballot_added_exact.
+Print Assumptions C17_ballot_bullet_exact.
+Print Assumptions C17_copeland_ballots_added_bullet.
+Print Assumptions C17_minimax_ballots_added_bullet.
+Print Assumptions C17_ballot_added_lifts.
+Print Assumptions C17_minimax_ballots_added.
+Print Assumptions C17_copeland_added_long_refuted.
+Print Assumptions C17_minimax_winvotes_added_long_refuted.
+Print Assumptions C17_lr_hare_votes.
+Print Assumptions C17_lr_hare_defined.
